@@ -429,6 +429,7 @@ func translatePipeline(pkgs map[string]*pkgInfo) string {
 	b.WriteString(translateState(p))
 	b.WriteString(translateValidators(p))
 	b.WriteString(translateLoops(p))
+	b.WriteString(translateOriginLoop(p))
 	b.WriteString("end Cors.Gen.GoSrc\n")
 	return b.String()
 }
@@ -996,6 +997,173 @@ func translateLoops(p *pkgInfo) string {
 		if len(t.bad) > 0 {
 			fmt.Fprintf(&b, "/- UNSUPPORTED in the loop of %s: %s -/\n\n", sp.name, strings.ReplaceAll(strings.Join(t.bad, " ;; "), "-/", "- /"))
 		}
+	}
+	return b.String()
+}
+
+// translateOriginLoop: the body of the `for _, raw := range patterns` loop of validateOrigins as a step function on the
+// model's `Validate.OState` (tree, errs, allowAny).  Besides the constructs of translateLoops: an `if` without `continue`
+// (the rest of the body follows in both branches), `pattern, err := origins.ParsePattern(raw)` followed by
+// `if err != nil { errs = append(errs, err); continue }` (a `match` on the model's parser), `pattern.IsDeemedInsecure()`,
+// `pattern.Kind ==/!= origins.PatternKindSubdomains`, `if _, x := pattern.HostIsEffectiveTLD(); x { … }`,
+// `tree.Insert(&pattern)`, the three `IncompatibleOriginPatternError` literals.  Statements that only write
+// `discreteOrigin` (a variable the function never reads) are dropped.
+func translateOriginLoop(p *pkgInfo) string {
+	var loop *ast.RangeStmt
+	if p != nil {
+		for _, f := range p.files {
+			for _, d := range f.Decls {
+				if x, ok := d.(*ast.FuncDecl); ok && x.Name.Name == "validateOrigins" && x.Recv != nil && x.Body != nil {
+					for _, st := range x.Body.List {
+						if r, ok := st.(*ast.RangeStmt); ok && loop == nil {
+							loop = r
+						}
+					}
+				}
+			}
+		}
+	}
+	if loop == nil || exprText(loop.X) != "patterns" || loop.Value == nil || exprText(loop.Value) != "raw" {
+		return "/-- the loop of `validateOrigins` is missing from the source (or ranges over something else). -/\ndef originStep : Unit := ()\n\n"
+	}
+	t := &tr{p: p}
+	const stTy = "Validate.OState"
+	var expr func(e ast.Expr) string
+	expr = func(e ast.Expr) string {
+		switch e := e.(type) {
+		case *ast.ParenExpr:
+			return "(" + expr(e.X) + ")"
+		case *ast.Ident:
+			switch e.Name {
+			case "raw", "pattern":
+				return e.Name
+			case "pna":
+				return "pnaAny"
+			case "allowAnyOrigin":
+				return "st.allowAny"
+			}
+		case *ast.SelectorExpr:
+			switch exprText(e) {
+			case "icfg.credentialed":
+				return "credentialed"
+			case "icfg.insecureOrigins":
+				return "tolInsecure"
+			case "icfg.subsOfPublicSuffixes":
+				return "tolPSL"
+			case "headers.ValueWildcard":
+				return "Facts.headers_ValueWildcard"
+			case "pattern.Kind":
+				return "pattern.kind"
+			case "origins.PatternKindSubdomains":
+				return "Kind.subdomains"
+			}
+		case *ast.UnaryExpr:
+			if e.Op == token.NOT {
+				return "(!" + expr(e.X) + ")"
+			}
+		case *ast.BinaryExpr:
+			if e.Op == token.LAND || e.Op == token.LOR || e.Op == token.EQL || e.Op == token.NEQ {
+				return "(" + expr(e.X) + " " + e.Op.String() + " " + expr(e.Y) + ")"
+			}
+		case *ast.CallExpr:
+			if exprText(e) == "pattern.IsDeemedInsecure()" {
+				return "(Pat.isDeemedInsecure pattern)"
+			}
+		}
+		return t.unsupported(e)
+	}
+	errVal := func(e ast.Expr) string {
+		u, ok := e.(*ast.UnaryExpr)
+		if ok && u.Op == token.AND {
+			if cl, ok := u.X.(*ast.CompositeLit); ok && exprText(cl.Type) == "cfgerrors.IncompatibleOriginPatternError" && len(cl.Elts) == 2 {
+				val, reason := "", ""
+				for _, el := range cl.Elts {
+					kv, ok := el.(*ast.KeyValueExpr)
+					if !ok {
+						return t.unsupported(e)
+					}
+					switch exprText(kv.Key) {
+					case "Value":
+						if tv, ok := p.info.Types[kv.Value]; ok && tv.Value != nil && tv.Value.Kind() == constant.String {
+							val = leanBytes(constant.StringVal(tv.Value))
+						} else {
+							val = expr(kv.Value)
+						}
+					case "Reason":
+						if tv, ok := p.info.Types[kv.Value]; ok && tv.Value != nil && tv.Value.Kind() == constant.String {
+							reason = constant.StringVal(tv.Value)
+						}
+					}
+				}
+				if val != "" && (reason == "credentialed" || reason == "pna" || reason == "psl") {
+					return "(CfgErr.incompatOrigin " + val + " ." + reason + ")"
+				}
+			}
+		}
+		return t.unsupported(e)
+	}
+	onlyDiscrete := func(list []ast.Stmt) bool {
+		for _, s := range list {
+			a, ok := s.(*ast.AssignStmt)
+			if !ok || len(a.Lhs) != 1 || exprText(a.Lhs[0]) != "discreteOrigin" {
+				return false
+			}
+		}
+		return len(list) > 0
+	}
+	var stmts func(list []ast.Stmt, ind string) string
+	stmts = func(list []ast.Stmt, ind string) string {
+		if len(list) == 0 {
+			return "st"
+		}
+		s, rest := list[0], list[1:]
+		in := ind + "  "
+		switch s := s.(type) {
+		case *ast.BranchStmt:
+			if s.Tok == token.CONTINUE && s.Label == nil {
+				return "st"
+			}
+		case *ast.IfStmt:
+			if s.Else == nil && s.Init == nil && onlyDiscrete(s.Body.List) {
+				return stmts(rest, ind) // writes `discreteOrigin` only: a variable that is never read
+			}
+			if s.Else == nil && s.Init != nil && exprText(s.Init) == "_, isEffectiveTLD := pattern.HostIsEffectiveTLD()" && exprText(s.Cond) == "isEffectiveTLD" {
+				return "if (Pat.hostIsEffectiveTLD ext pattern) then\n" + in + stmts(append(append([]ast.Stmt{}, s.Body.List...), rest...), in) + "\n" + ind + "else\n" + in + stmts(rest, in)
+			}
+			if s.Else == nil && s.Init == nil {
+				return "if " + expr(s.Cond) + " then\n" + in + stmts(append(append([]ast.Stmt{}, s.Body.List...), rest...), in) + "\n" + ind + "else\n" + in + stmts(rest, in)
+			}
+		case *ast.ExprStmt:
+			if exprText(s.X) == "tree.Insert(&pattern)" {
+				return "let st : " + stTy + " := { st with tree := Tree.insert st.tree pattern }\n" + ind + stmts(rest, ind)
+			}
+		case *ast.AssignStmt:
+			if len(s.Lhs) == 1 && len(s.Rhs) == 1 {
+				l := exprText(s.Lhs[0])
+				if l == "allowAnyOrigin" && s.Tok == token.ASSIGN && exprText(s.Rhs[0]) == "true" {
+					return "let st : " + stTy + " := { st with allowAny := true }\n" + ind + stmts(rest, ind)
+				}
+				if l == "err" && s.Tok == token.DEFINE && len(rest) > 0 {
+					if a, ok := rest[0].(*ast.AssignStmt); ok && a.Tok == token.ASSIGN && len(a.Lhs) == 1 && exprText(a.Lhs[0]) == "errs" && len(a.Rhs) == 1 && exprText(a.Rhs[0]) == "append(errs, err)" {
+						return "let st : " + stTy + " := { st with errs := st.errs ++ [" + errVal(s.Rhs[0]) + "] }\n" + ind + stmts(rest[1:], ind)
+					}
+				}
+			}
+			// pattern, err := origins.ParsePattern(raw); if err != nil { errs = append(errs, err); continue }
+			if s.Tok == token.DEFINE && len(s.Lhs) == 2 && exprText(s.Lhs[0]) == "pattern" && exprText(s.Lhs[1]) == "err" && len(s.Rhs) == 1 && exprText(s.Rhs[0]) == "origins.ParsePattern(raw)" && len(rest) > 0 {
+				if is, ok := rest[0].(*ast.IfStmt); ok && is.Init == nil && is.Else == nil && exprText(is.Cond) == "err != nil" && codeText(is.Body) == "{ errs = append(errs, err) continue }" {
+					return "match Pat.parsePattern ext raw with\n" + ind + "| .error reason__ => { st with errs := st.errs ++ [CfgErr.originPattern raw reason__] }\n" + ind + "| .ok pattern =>\n" + in + stmts(rest[1:], in)
+				}
+			}
+		}
+		return t.unsupported(s)
+	}
+	body := stmts(loop.Body.List, "  ")
+	var b strings.Builder
+	fmt.Fprintf(&b, "/-- one iteration of the loop of `validateOrigins`, translated from: %s -/\n", strings.ReplaceAll(codeText(loop.Body), "-/", "- /"))
+	fmt.Fprintf(&b, "def originStep (ext : Ext) (credentialed pnaAny tolInsecure tolPSL : Bool) (st : %s) (raw : Bytes) : %s :=\n  %s\n\n", stTy, stTy, body)
+	if len(t.bad) > 0 {
+		fmt.Fprintf(&b, "/- UNSUPPORTED in the loop of validateOrigins: %s -/\n\n", strings.ReplaceAll(strings.Join(t.bad, " ;; "), "-/", "- /"))
 	}
 	return b.String()
 }
